@@ -3,23 +3,88 @@
 //!         ((target level) ...) [ (failing-appender-index ...) ] )
 //! Appenders named in the optional 5th component record the call and then return
 //! Err: a failing appender must not keep the record from the rest of the chain.
+//! Optional 6th component ( app probe ): the appender with index `app`, while handling a
+//! top-level record (message "m"), logs the probe number `probe` (message "k") through the
+//! same Logger before it returns - a record emitted from inside an appender is an ordinary
+//! record and must be routed like one.
 //! result: per probe the list of appender indices (position in the appender
 //! declaration list) whose `append` was called, in call order; ("err" 1) when
-//! the config does not build.
+//! the config does not build.  With a 6th component one more entry follows: per probe
+//! the appender indices that received a nested "k" record while that probe was logged.
 use log::Log;
 use log4rs::config::{Appender, Config, Logger, Root};
 use vh::util::*;
 use vh::val::Val;
 
+/// records (1 idx) for a top-level record and (2 idx) for a nested one; on a top-level record
+/// optionally logs a follow-up record through the logger it is attached to
+struct NestAppender {
+    idx: usize,
+    fails: bool,
+    rec: Rec,
+    logger: std::sync::Arc<std::sync::Mutex<Option<std::sync::Arc<log4rs::Logger>>>>,
+    follow: Option<(String, log::Level)>,
+}
+
+impl std::fmt::Debug for NestAppender {
+    fn fmt(&self, f: &mut std::fmt::Formatter) -> std::fmt::Result {
+        write!(f, "NestAppender({})", self.idx)
+    }
+}
+
+impl log4rs::append::Append for NestAppender {
+    fn append(&self, record: &log::Record) -> anyhow::Result<()> {
+        let top = record.args().to_string() == "m";
+        self.rec
+            .lock()
+            .unwrap()
+            .push(Val::L(vec![Val::N(if top { 1 } else { 2 }), Val::N(self.idx as u128)]));
+        if top {
+            if let Some((t, l)) = &self.follow {
+                let lg = self.logger.lock().unwrap().clone();
+                if let Some(lg) = lg {
+                    lg.log(&log::Record::builder().level(*l).target(t).args(format_args!("k")).build());
+                }
+            }
+        }
+        if self.fails {
+            Err(anyhow::anyhow!("{}", self.idx))
+        } else {
+            Ok(())
+        }
+    }
+    fn flush(&self) {}
+}
+
 fn run(case: &Val) -> Val {
     let c = case.l();
     let rec = new_rec();
+    let nest: Option<(usize, usize)> = if c.len() > 5 && c[5].l().len() == 2 {
+        Some((c[5].l()[0].u(), c[5].l()[1].u()))
+    } else {
+        None
+    };
+    let slot: std::sync::Arc<std::sync::Mutex<Option<std::sync::Arc<log4rs::Logger>>>> =
+        std::sync::Arc::new(std::sync::Mutex::new(None));
     let failing: Vec<usize> = if c.len() > 4 { c[4].l().iter().map(|v| v.u()).collect() } else { vec![] };
     let mut builder = Config::builder();
     for (i, a) in c[0].l().iter().enumerate() {
+        let follow = match nest {
+            Some((ai, pi)) if ai == i => {
+                let p = c[3].l()[pi].l();
+                Some((p[0].str(), level(p[1].n())))
+            }
+            _ => None,
+        };
         builder = builder.appender(Appender::builder().build(
             a.str(),
-            Box::new(RecAppender { idx: i, fails: failing.contains(&i), rec: rec.clone() }),
+            Box::new(NestAppender {
+                idx: i,
+                fails: failing.contains(&i),
+                rec: rec.clone(),
+                logger: slot.clone(),
+                follow,
+            }),
         ));
     }
     for lg in c[2].l() {
@@ -40,8 +105,15 @@ fn run(case: &Val) -> Val {
         Err(_) => return Val::err(1),
     };
     // same construction as Logger::new, with a silent error handler (failing appenders)
-    let logger = log4rs::Logger::new_with_err_handler(config, Box::new(|_e: &anyhow::Error| {}));
+    let logger = std::sync::Arc::new(log4rs::Logger::new_with_err_handler(
+        config,
+        Box::new(|_e: &anyhow::Error| {}),
+    ));
+    if nest.is_some() {
+        *slot.lock().unwrap() = Some(logger.clone());
+    }
     let mut out = vec![];
+    let mut nested = vec![];
     for p in c[3].l() {
         let p = p.l();
         let target = p[0].str();
@@ -54,7 +126,13 @@ fn run(case: &Val) -> Val {
                 .build(),
         );
         let ev = rec.lock().unwrap();
-        out.push(Val::L(ev.iter().map(|e| e.l()[1].clone()).collect()));
+        out.push(Val::L(ev.iter().filter(|e| e.l()[0].n() == 1).map(|e| e.l()[1].clone()).collect()));
+        nested.push(Val::L(ev.iter().filter(|e| e.l()[0].n() == 2).map(|e| e.l()[1].clone()).collect()));
+    }
+    // break the logger -> appender -> logger cycle
+    *slot.lock().unwrap() = None;
+    if nest.is_some() {
+        out.push(Val::L(nested));
     }
     Val::L(out)
 }
